@@ -35,6 +35,7 @@ func (r *Run) libCall(st *State, fr *Frame, name string, recv Val, args []Val, s
 	r.atCall(st, fr, name, args, sig, in)
 	ret := func(vs ...Val) []*State {
 		r.setResult(st, fr, dst, vs)
+		r.afterCall(st, fr, name, args, vs, sig, in)
 		return nil
 	}
 	switch name {
@@ -340,7 +341,7 @@ func (r *Run) onceDo(st *State, fr *Frame, once T, f Val, in ssa.Instruction, ds
 	e.regionWrite1(st, "once.done", SBool, once, True)
 	r.setResult(st, fr, dst, nil)
 	cc := in.(ssa.CallInstruction).Common()
-	fcc := &ssa.CallCommon{Value: cc.Args[0]}
+	fcc := &ssa.CallCommon{Value: cc.Args[len(cc.Args)-1]}
 	forks := r.invoke(st, fr, fcc, f, nil, nil, in)
 	return append(forks, other)
 }
